@@ -4,7 +4,8 @@ From V Require Import Base.Strings Base.Result Model.Registry Model.Settings Mod
   Model.TypePath Model.Derives Model.Generate Model.Emit Model.Equal Model.WellFormed
   Proofs.GenProofs Proofs.SortDedup Proofs.ClosedProofs
   Checkers.Parse Checkers.Sem Model.Unparse Model.UnparseClosed
-  Proofs.ParseTy Proofs.ParseItem Proofs.ParseMod Proofs.ParseClosed.
+  Proofs.ParseTy Proofs.ParseItem Proofs.ParseMod Proofs.ArityProofs Proofs.ParseClosed.
+From V Require Model.Shape.
 Import ListNotations.
 
 (** every emitted item is the IR of an item-eligible registry entry, sitting at that entry's path *)
@@ -160,27 +161,39 @@ Theorem C02_closedb_of_ir :
 Proof. exact closedb_of_ir. Qed.
 Print Assumptions C02_closedb_of_ir.
 
-(** PARTIAL (full statement intended: under [root_fresh s], [generate r s teq = Ok m], plainness and
-    [skeleton_consistent r s]: [closedb (s_root s) (pmod_of_items s m) = true]).
-    Derived from [generate] here: duplicate-free keys ([C02_unique_names]), key = item name and
-    distinct parameter indices ([create_type_ir]), rooted paths name emitted items
-    ([C02_paths_resolve]), generics used ([C02_generics_used]).
-    Still hypotheses (the gap): [keys_prefix_free m] (DESIGN 3.1 clause 4: no item path is a proper
-    prefix of another, needed for item-vs-sibling-module names); [nodes_extra s m], i.e.
-    (a) the ARITY clause - the number of arguments at a rooted node equals the number of parameters
-        of the item found there: this is C02_arity_consistent, which follows from
-        [skeleton_consistent r s] ([C01_lookup] + equal parameter counts of [erase_ids]-equal IRs)
-        but is not proved here;
-    (b) compact / bits wrapper paths do not start with the root ident (they are [s_compact s] /
-        [s_bits s]; the invariant of [resolve_rec] is not proved here, and [root_fresh] as defined
-        in Proofs/ClosedProofs.v does not mention these two settings);
-    (c) fields are [tokenizable] (true whenever emission succeeds).
-    Also assumed: the root ident does not start with [_]. *)
-Theorem C02_closedb_emitted_partial :
+(** under [skeleton_consistent r s] the number of generic arguments at every path rooted at the
+    types module, anywhere inside a field of an emitted item, equals the number of parameters the
+    item found at that path declares *)
+Theorem C02_arity_consistent :
   forall r s teq m,
-  root_fresh s -> starts_with "_" (s_root s) = false ->
-  generate r s teq = Ok m -> items_plain s m = true ->
-  keys_prefix_free m -> nodes_extra s m ->
-  closedb (s_root s) (pmod_of_items s m) = true.
-Proof. exact closedb_emitted_partial. Qed.
-Print Assumptions C02_closedb_emitted_partial.
+  Shape.skeleton_consistent r s -> root_fresh s -> generate r s teq = Ok m ->
+  forall p0 id ir, items_get m p0 = Some (id, ir) ->
+  forall f, In f (kind_fields (ti_kind ir)) ->
+  forall ptoks params, In (TPath ptoks params) (subpaths (fi_path f)) ->
+  forall q id' ir', ptoks = rel_path (s_root s :: q) -> items_get m q = Some (id', ir') ->
+  List.length params = List.length (ti_params ir').
+Proof. exact arity_consistent. Qed.
+Print Assumptions C02_arity_consistent.
+
+(** the whole chain: generate, print, read the tokens back with the independent reader, check
+    closedness ([closedb]: rooted paths resolve with the declared arity, every declared generic is
+    mentioned by a field or the marker, generic names distinct, module / item names unique per
+    module, root module named and re-exported as the root).
+    Hypotheses beyond [root_fresh], [skeleton_consistent], plainness - each is necessary for
+    [closedb] itself, not an artefact of the proof:
+    - [starts_with "_" (s_root s) = false]: generic parameters are named [_<n>]; a root module of
+      that name would make a parameter read as a (dangling) rooted path;
+    - [wrappers_fresh s]: the compact / bits wrapper paths ([s_compact], [s_bits]) do not start with
+      the root ident ([root_fresh] of Proofs/ClosedProofs.v covers the alloc path and substitute
+      targets only);
+    - [keys_prefix_free m]: no item path is a proper prefix of another (DESIGN 3.1 clause 4);
+      otherwise an item and a sibling module share a name. *)
+Theorem C02_closedb_emitted :
+  forall r s teq m toks,
+  root_fresh s -> starts_with "_" (s_root s) = false -> wrappers_fresh s ->
+  Shape.skeleton_consistent r s ->
+  generate r s teq = Ok m -> emit_module s m = Ok toks -> items_plain s m = true ->
+  keys_prefix_free m ->
+  exists pm, parse_module toks = Some pm /\ closedb (s_root s) pm = true.
+Proof. exact emitted_closed. Qed.
+Print Assumptions C02_closedb_emitted.
